@@ -364,7 +364,7 @@ func (w *World) execConcurrent() {
 		return
 	}
 	// this run signs with key material the process has not seen before
-	w.Pool = w.Pool.WithFresh(core.NewRNG(w.Plan.Seed).Stream("c20/fresh-keys"), 6)
+	w.Pool = w.Pool.WithFresh(core.NewRNG(w.Plan.Seed).Stream("c20/fresh-keys"), 4)
 	shared := w.newConcShared("0")
 	s := &coSched{planned: append([]int{}, w.Plan.Schedule...), rngState: core.NewRNG(w.Plan.Seed).Stream("sched").Uint64(),
 		switchPc: uint64(w.Plan.Swarm.NetMaxDelay), maxSteps: 60000, sites: map[string]int{}}
@@ -491,6 +491,14 @@ func GenConcurrent(seed uint64, pool *Pool) *Plan {
 			}
 		}
 		p.Steps = append(p.Steps, Step{Op: STask, Node: t, Args: map[string]any{"calls": calls}})
+	}
+	// every DID's signed operation is applied (signature verified) at least once per run, spread over the tasks
+	for i := 0; i < 10; i++ {
+		st := &p.Steps[len(p.Steps)-nt+r.Intn(nt)]
+		calls := st.Args["calls"].([]any)
+		k := r.Intn(len(calls) + 1)
+		calls = append(calls[:k:k], append([]any{map[string]any{"c": "apply2", "i": i}}, calls[k:]...)...)
+		st.Args["calls"] = calls
 	}
 	return p
 }
